@@ -88,7 +88,12 @@ impl AssociationHandler for Clock {
         let now = tokio::time::Instant::now()
             .duration_since(self.start)
             .as_millis() as u64;
-        Some(Timestamp::new(off.wrapping_add(now)))
+        // a DNP3 time stamp holds 48 bits: beyond that the master has no representable time
+        let v = off.checked_add(now)?;
+        if v > 0x0000_FFFF_FFFF_FFFF {
+            return None;
+        }
+        Some(Timestamp::new(v))
     }
 }
 
